@@ -228,6 +228,20 @@ def run_campaign(pid, p, eng, binp, tier, seed, scratch, exclude, bins_all=None)
                 agg["budget_exhausted"] = True
             continue
         logtxt = open(os.path.join(out, "log.txt"), errors="replace").read()
+        # a crash is not shrunk by rapidcheck (the process died): re-run the same campaign with every case in a forked
+        # child, where the crash is an ordinary failing verdict and gets minimised; the same seed regenerates the same cases
+        if case and case.endswith("crash.case") and eng["type"] == "pbt" and eng.get("fork_shrink", True):
+            sh_out = out + "-shrink"
+            os.makedirs(sh_out, exist_ok=True)
+            try:
+                with open(os.path.join(sh_out, "log.txt"), "w") as lf:
+                    subprocess.run([c_.replace(out, sh_out) if c_ == out else c_ for c_ in cmds[i]] + ["--fork"], env=env_for(extra), stdout=lf,
+                                   stderr=subprocess.STDOUT, timeout=eng.get("shrink_timeout", 900), cwd=sh_out)
+            except subprocess.TimeoutExpired:
+                pass
+            shrunk = os.path.join(sh_out, "fail.case")
+            if os.path.exists(shrunk) and os.path.getsize(shrunk) <= os.path.getsize(case):
+                case = shrunk
         if case:
             msg = ""
             mp = os.path.join(out, "fail.msg")
